@@ -214,7 +214,7 @@ func (r *Run) execute() int {
 	}
 	dis := &Discharger{w: w, dir: dir, timeout: r.timeout, sem: make(chan struct{}, 24), survey: r.survey}
 	if !r.survey {
-		budget := 15 * time.Minute
+		budget := 22 * time.Minute
 		if r.tier == "thorough" {
 			budget = 60 * time.Minute
 		}
